@@ -1,3 +1,5 @@
+//go:build mcbuild
+
 // C16: xsync.ContextCond never loses a wakeup. Engine E2.
 package main
 
